@@ -49,6 +49,10 @@ def gen_cases(ck):
     for m in (5, 6, 7, 100, 255):
         for d in "ed":
             cases.append(Case("mode %s %d %s %s %s" % (d, m, rb(r, 16).hex(), rb(r, 20).hex(), rb(r, 32).hex()), "mode", "factory/out-of-range", True))
+    # streams whose blocks are related to the blocks the same object saw / produced before (common.feedback_streams)
+    specs = [(d, m, rb(r, 16), rb(r, 20)) for m in range(5) for d in "ed" for _ in range(8 if big else 2)]
+    for (d, m, k, iv), (data, _, rel) in zip(specs, feedback_streams(ck, specs, 7)):
+        cases.append(Case("%s %s %d %s %s %s" % (r.choice(["mode", "mode", "modes"]), d, m, k.hex(), iv.hex(), data.hex()), "mode", "mode%d/%s/related-blocks" % (m, d)))
     return cases
 
 
